@@ -135,8 +135,19 @@ def func_node(tree, qual):
     return node
 
 
-def exc_names(handler):
+def exc_names(handler, module=None):
+    """names of the exception classes an `except` clause lists. The clause is evaluated in the module's namespace first
+    (so `except _PARSE_ERRORS:` with a module-level tuple, or aliases, resolve to the classes they denote); the syntactic
+    reading is the fall-back."""
     t = handler.type
+    if module is not None and t is not None:
+        try:
+            obj = eval(compile(ast.Expression(t), "<except>", "eval"), dict(vars(module)))
+            classes = obj if isinstance(obj, tuple) else (obj,)
+            if classes and all(isinstance(c, type) and issubclass(c, BaseException) for c in classes):
+                return ["struct.error" if (c.__module__ == "struct" and c.__name__ == "error") else c.__name__ for c in classes]
+        except Exception:  # noqa
+            pass
     elts = t.elts if isinstance(t, ast.Tuple) else [t]
     out = []
     for e in elts:
@@ -262,7 +273,7 @@ def main():
             for h in trys[0].handlers:
                 raised = [r for r in ast.walk(h) if isinstance(r, ast.Raise)]
                 if len(raised) == 1 and isinstance(raised[0].exc, ast.Call) and getattr(raised[0].exc.func, "id", "") == "UBXTypeError":
-                    catch += exc_names(h)
+                    catch += exc_names(h, um)
                 else:
                     ok = False
     if not ok or any(c not in EXC_MAP for c in catch):
@@ -278,8 +289,8 @@ def main():
         trys = [n for n in ast.walk(fn) if isinstance(n, ast.Try)]
         if len(trys) == 1 and len(trys[0].handlers) == 2:
             h0, h1 = trys[0].handlers
-            if exc_names(h0) == ["EOFError"]:
-                rcatch = exc_names(h1)
+            if exc_names(h0, ur) == ["EOFError"]:
+                rcatch = exc_names(h1, ur)
     if rcatch is None:
         shape.append("read: except clauses")
         rcatch = ["UBXMessageError", "UBXTypeError", "UBXParseError", "UBXStreamError",
